@@ -627,3 +627,31 @@ async fn remote<P: Protocol>(
         router_tx.send((connection_id, message)).ok();
     }
 }
+
+/// Verification hooks, compiled only with the `verif-hooks` feature: an entry point to the
+/// per-connection task that takes any in-memory stream instead of an accepted TCP socket.
+#[cfg(feature = "verif-hooks")]
+pub(crate) mod verif {
+    use super::*;
+
+    /// Opaque handle to the will bookkeeping shared by the connections of one listener
+    #[derive(Clone, Default)]
+    pub struct VerifWillHandlers(Arc<Mutex<HashMap<String, Sender<AwaitingWill>>>>);
+
+    impl VerifWillHandlers {
+        pub fn new() -> Self {
+            Self::default()
+        }
+    }
+
+    /// Runs the ordinary per-connection task (`remote`) over `stream`
+    pub async fn verif_remote<P: Protocol>(
+        config: Arc<ConnectionSettings>,
+        router_tx: Sender<(ConnectionId, Event)>,
+        stream: Box<dyn N>,
+        protocol: P,
+        will_handlers: VerifWillHandlers,
+    ) {
+        remote(config, None, router_tx, stream, protocol, will_handlers.0).await
+    }
+}
